@@ -64,6 +64,8 @@ func TestVerifDriver(t *testing.T) {
 		b, _ := json.Marshal(res)
 		w.Write(b)
 		w.WriteByte('\n')
+		// one result per case even if the code under test ends the process during a later case
+		w.Flush()
 	}
 }
 
